@@ -7,6 +7,7 @@ import (
 	"context"
 	"fmt"
 	"sync"
+	"sync/atomic"
 	"time"
 )
 
@@ -41,10 +42,12 @@ type EventPublisher struct {
 	// the Commit call in the FSM hot path.
 	publishCh chan publishUpdate
 
-	// generation counts the calls to RefreshAllTopics (a snapshot restore). It
-	// is guarded by lock. A queued batch carries the generation it was
-	// published under and is dropped if a restore happened in between.
-	generation uint64
+	// generation counts the calls to RefreshAllTopics (a snapshot restore). A
+	// queued batch carries the generation it was published under and is
+	// dropped if a restore happened in between. It is atomic rather than
+	// guarded by lock: Publish is called by writers that may hold locks a
+	// snapshot handler (which runs under lock) needs as well.
+	generation atomic.Uint64
 
 	snapshotHandlers SnapshotHandlers
 
@@ -164,7 +167,7 @@ func (e *EventPublisher) RefreshAllTopics() {
 	// snapshots of the restored state, and neither must events that already
 	// sit in the topic buffers (a subscriber that has not unsubscribed yet
 	// keeps its buffer alive): start over with fresh buffers.
-	e.generation++
+	e.generation.Add(1)
 	for topic := range e.snapshotHandlers {
 		topics[topic] = struct{}{}
 		e.forceEvictByTopicLocked(topic)
@@ -213,11 +216,7 @@ func (e *EventPublisher) Publish(events []Event) {
 		}
 	}
 
-	e.lock.RLock()
-	generation := e.generation
-	e.lock.RUnlock()
-
-	e.publishCh <- publishUpdate{generation: generation, events: events}
+	e.publishCh <- publishUpdate{generation: e.generation.Load(), events: events}
 }
 
 // Run the event publisher until ctx is cancelled. Run should be called from a
@@ -237,10 +236,7 @@ func (e *EventPublisher) Run(ctx context.Context) {
 // handleUpdate appends a queued batch to the topic buffers, unless the state it
 // was committed against has been replaced by a restore since it was queued.
 func (e *EventPublisher) handleUpdate(update publishUpdate) {
-	e.lock.RLock()
-	current := e.generation
-	e.lock.RUnlock()
-	if update.generation != current {
+	if update.generation != e.generation.Load() {
 		return
 	}
 	e.publishEvent(update.events)
